@@ -162,6 +162,7 @@ def _one_shot_case(rng, word, thumb, mode, te, regs, mpu, sct_extra=None, arch=7
     G.set_data(devices[0], 0, low)
     G.set_data(devices[1], 0, code)
     cfg = {'arch_version': arch, 'have_security_ext': False, 'have_virt_ext': False, 'have_lpae': False, 'memory_system_architecture': 'PMSA', 'number_of_mpu_regions': 12}
+    cfg.update(G.impdef_switches(rng))           # implementation-defined choices must not touch DFAR/DFSR status/WnR of MPU and alignment faults
     ee = int(rng.random() < 0.3)
     st = P.main_state(rng, cfg, mode, thumb, te, dict(G.mpu_sys(mpu)), e=int(rng.random() < 0.25), ee=ee)
     st['sys']['sctlr'] = G.sctlr_value(m=1, a=0, u=1, te=te, v=0, br=0, ee=ee, **(sct_extra or {}))
